@@ -125,7 +125,7 @@ class LoopMachine(Machine):
         cur = [st]
         exits = []
         first = True
-        seen_heads = set()
+        seen_heads = {}
         for it in range(MAX_CONCRETE_ITERS + 1):
             if it == MAX_CONCRETE_ITERS:
                 raise Undecided()
@@ -134,9 +134,13 @@ class LoopMachine(Machine):
                 for s2 in cur:
                     sg = self.head_sig(s2)
                     if sg in seen_heads:
+                        if seen_heads[sg] != s2.trace:
+                            # the signature does not tell the two visits apart, but something was done in between
+                            # (a node popped and released): not a fix-point of a finite-state re-evaluation - summarise
+                            raise Undecided()
                         s2.tags['loop_cut'] = s2.tags.get('loop_cut', 0) + 1
                         continue
-                    seen_heads.add(sg)
+                    seen_heads[sg] = s2.trace
                     fresh.append(s2)
                 cur = fresh
                 if not cur:
@@ -216,40 +220,70 @@ class LoopMachine(Machine):
         return cont, brk, ret, exitf
 
     def disequality_invariant(self, entry, lid, mods, smashed, induct, cond):
-        """`while (p != end)` / `for (i = a; i != n; i += s)`: with closed forms the condition reads a*k + c != 0.  If c is a
-        constant with a*0 + c on the far side of 0 and a | c, the walk reaches equality before passing it, so
-        a*k + c <= 0 (a > 0) resp. >= 0 (a < 0) holds at the head of every iteration.  -> Lin fact or None"""
+        """`while (p != end)` / `for (i = a; i != n; i += s)` / `for (w = 0; w != n && node; w++)`: with closed forms a
+        conjunct of the condition reads a*k + c != 0.
+        (1) c constant with a*0 + c on the far side of 0 and a | c: the walk reaches equality before passing it, so
+            a*k + c <= 0 (a > 0) resp. >= 0 (a < 0) holds at the head of every iteration.
+        (2) |a| = 1 and c a loop-invariant expression the entry state knows to be on the far side of 0 (0 - n <= 0): a unit
+            step cannot jump over equality either, same conclusion.
+        (Induction: true at head 0; true at head k and conjunct true => strictly on the far side => true at head k+1.)
+        -> list of Lin facts (each <= 0) or None"""
         kterm = ('sym', 'iter:' + lid, 0, INF)
         saved_obs, saved_quiet, saved_log = self.obs, getattr(self, 'quiet', False), getattr(self, 'store_log', None)
         self.quiet, self.obs, self.store_log = True, {}, None
         try:
             h = entry.fork()
             self.apply_havoc(h, lid, mods, smashed, induct, entry)
-            outs = list(self.rval(h, cond))
-            if (getattr(self, 'debug_loops', False) or DEBUG):
-                print('disequality_invariant', lid, [short(cv.t) for _s, cv in outs])
-            if len(outs) != 1:
-                return None
-            s2, cv = outs[0]
-            t = cv.t
-            if t[0] == 'lnot' and t[1][0] == 'eq':
-                t = ('ne', t[1][1], t[1][2])
-            if t[0] != 'ne':
-                return None
-            a, b = s2.canon(t[1]), s2.canon(t[2])
-            if a[0] == 'ptr' and b[0] == 'ptr' and a[1] == b[1]:
-                a, b = a[2], b[2]
-            elif a[0] in ('ptr', 'pset', 'fn') or b[0] in ('ptr', 'pset', 'fn'):
-                return None
-            l = lin_of(s2.canon(a)).add(lin_of(s2.canon(b)), -1)
-            if set(l.co) != {kterm}:
-                return None
-            co, c = l.co[kterm], l.k
-            if co > 0 and c <= 0 and (-c) % co == 0:
-                return Lin({kterm: co}, c)                    # co*k + c <= 0
-            if co < 0 and c >= 0 and c % (-co) == 0:
-                return Lin({kterm: -co}, -c)                  # -(co*k + c) <= 0
-            return None
+            conj = []
+
+            def split(e):
+                while e.get('kind') in ('ParenExpr', 'ImplicitCastExpr') and e.get('inner'):
+                    e = e['inner'][0]
+                if e.get('kind') == 'BinaryOperator' and e.get('opcode') == '&&':
+                    split(e['inner'][0])
+                    split(e['inner'][1])
+                else:
+                    conj.append(e)
+            split(cond)
+            invs = []
+            for e in conj:
+                try:
+                    outs = list(self.rval(h.fork(), e))
+                except Exception:
+                    continue
+                if (getattr(self, 'debug_loops', False) or DEBUG):
+                    print('disequality_invariant', lid, [short(cv.t) for _s, cv in outs])
+                if len(outs) != 1:
+                    continue
+                s2, cv = outs[0]
+                t = cv.t
+                if t[0] == 'lnot' and t[1][0] == 'eq':
+                    t = ('ne', t[1][1], t[1][2])
+                if t[0] != 'ne':
+                    continue
+                a, b = s2.canon(t[1]), s2.canon(t[2])
+                if a[0] == 'ptr' and b[0] == 'ptr' and a[1] == b[1]:
+                    a, b = a[2], b[2]
+                elif a[0] in ('ptr', 'pset', 'fn') or b[0] in ('ptr', 'pset', 'fn'):
+                    continue
+                l = lin_of(s2.canon(a)).add(lin_of(s2.canon(b)), -1)
+                if kterm not in l.co:
+                    continue
+                co, c = l.co[kterm], l.k
+                if set(l.co) == {kterm}:
+                    if co > 0 and c <= 0 and (-c) % co == 0:
+                        invs.append(Lin({kterm: co}, c))                    # co*k + c <= 0
+                    elif co < 0 and c >= 0 and c % (-co) == 0:
+                        invs.append(Lin({kterm: -co}, -c))                  # -(co*k + c) <= 0
+                    continue
+                if abs(co) != 1 or not all(x == kterm or loop_invariant(x, lid) for x in l.co):
+                    continue
+                rest = Lin({x: v for x, v in l.co.items() if x != kterm}, c)
+                if co == 1 and entry.entails_le0(rest):
+                    invs.append(l)                                          # k + rest <= 0
+                elif co == -1 and entry.entails_le0(rest.scale(-1)):
+                    invs.append(l.scale(-1))                                # k - rest <= 0
+            return invs or None
         except Exception:
             return None
         finally:
@@ -438,13 +472,16 @@ class LoopMachine(Machine):
             h0 = entry.fork()
             h0.trace = ()
             cont0, _b, _r, _e = self.one_iteration(h0, cond, inc, body, cond_first)
+            # a continuing path that cannot start another iteration (`node = NULL; /* ends the loop */`) leaves right after
+            # this one: the closed forms need not hold on it (it is emitted as an exit of the recorded iteration below)
+            cont0r = [s2 for s2 in cont0 if can_reenter(s2)]
             cands = {}
             for (oid, key), (n, ty, _) in mods.items():
                 if ty is not None and ty.kind == 'ptr' and oid not in smashed and oid in entry.objs:
                     init = entry.canon(mem.load_scalar(entry, entry.objs[oid].copy(), term_of_lin(Lin(dict(key[0]), key[1])), ty))
                     if init != UNINIT and init[0] == 'ptr':
-                        step, okv = None, bool(cont0)
-                        for s2 in cont0:
+                        step, okv = None, bool(cont0r)
+                        for s2 in cont0r:
                             o2 = s2.objs.get(oid)
                             cell = o2.cells.get(key) if o2 is not None else None
                             v2 = s2.canon(cell[1]) if cell is not None else None
@@ -465,9 +502,9 @@ class LoopMachine(Machine):
                 if init == UNINIT or init[0] in ('ptr', 'pset', 'fn'):
                     continue
                 step = None
-                okv = bool(cont0)
+                okv = bool(cont0r)
                 later = []
-                for s2 in cont0:
+                for s2 in cont0r:
                     o2 = s2.objs.get(oid)
                     cell = o2.cells.get(key) if o2 is not None else None
                     if cell is None or cell[0] != n or cell[1][0] in ('ptr', 'pset', 'fn'):
@@ -495,14 +532,24 @@ class LoopMachine(Machine):
                 elif (getattr(self, 'debug_loops', False) or DEBUG):
                     print('loop', lid, 'not a candidate', oid, key, 'init', short(entry.canon(init)), 'n', n, 'step', step, 'after', [(s2.objs[oid].cells[key][0], short(s2.canon(s2.objs[oid].cells[key][1])), repr(lin_of(s2.canon(s2.objs[oid].cells[key][1])).add(lin_of(entry.canon(init)), -1))) for s2 in cont0 if oid in s2.objs and key in s2.objs[oid].cells][:8])
             kterm = ('sym', 'iter:' + lid, 0, INF)
+            self.loop_invs = dict(getattr(self, 'loop_invs', {}))
+            self.loop_invs.pop(lid, None)
             for _round in range(6):
                 if not cands:
                     break
+                # simultaneous induction: the disequality invariant follows from the closed forms being checked, and the
+                # closed forms (no wrap of `written++`) may need it; both hold at the first head, each is carried by the other
+                self.loop_invs.pop(lid, None)
+                if cond is not None and cond_first:
+                    inv = self.disequality_invariant(entry, lid, mods, smashed, cands, cond)
+                    if inv is not None:
+                        self.loop_invs[lid] = inv
                 self.obs = {}
                 hv_ = entry.fork()
                 self.apply_havoc(hv_, lid, mods, smashed, cands, entry)
                 hv_.trace = ()
                 contv, _b, _r, _e = self.one_iteration(hv_, cond, inc, body, cond_first)
+                contv = [s2 for s2 in contv if can_reenter(s2)]
                 badc = set()
                 for (oid, key), step in cands.items():
                     n, ty, _ = mods[(oid, key)]
@@ -544,7 +591,6 @@ class LoopMachine(Machine):
             else:
                 cands = {}
             induct = cands
-            self.loop_invs = dict(getattr(self, 'loop_invs', {}))
             self.loop_invs.pop(lid, None)
             if induct and cond is not None and cond_first:
                 inv = self.disequality_invariant(entry, lid, mods, smashed, induct, cond)
@@ -658,6 +704,54 @@ class LoopMachine(Machine):
                 s_f.tags = dict(s_f.tags)
                 s_f.tags['late-exit:' + lid] = True
             brk = list(brk) + late_exits          # "leaves after this iteration", like a break at its end
+        if induct:
+            # continuing paths on which a closed form does not hold were excused above because they cannot start another
+            # iteration: they leave through the condition right after this one, with the values they have
+            kterm_ = ('sym', 'iter:' + lid, 0, INF)
+
+            def closed_forms_hold(s2):
+                for (oid, key), step in induct.items():
+                    n, ty, _ = mods[(oid, key)]
+                    o2 = s2.objs.get(oid)
+                    cell = o2.cells.get(key) if o2 is not None else None
+                    if cell is None or cell[0] != n:
+                        return False
+                    if isinstance(step, tuple):
+                        _tag, tgt, off0, pstep = step
+                        v2 = s2.canon(cell[1])
+                        if v2[0] != 'ptr' or v2[1] != tgt:
+                            return False
+                        expect = lin_of(entry.canon(off0)).add(Lin({kterm_: pstep}, pstep))
+                        l = lin_of(s2.canon(v2[2])).add(lin_of(s2.canon(term_of_lin(expect))), -1)
+                    else:
+                        init = mem.load_scalar(entry, entry.objs[oid].copy(), term_of_lin(Lin(dict(key[0]), key[1])), ty)
+                        expect = lin_of(entry.canon(init)).add(Lin({kterm_: step}, step))
+                        l = lin_of(s2.canon(cell[1])).add(lin_of(s2.canon(term_of_lin(expect))), -1)
+                    if not (l.is_const() and l.k == 0):
+                        return False
+                return True
+            keep2, late2 = [], []
+            for s2 in cont:
+                if closed_forms_hold(s2):
+                    keep2.append(s2)
+                    continue
+                saved_obs2, saved_quiet2 = self.obs, getattr(self, 'quiet', False)
+                self.quiet, self.obs = True, {}
+                try:
+                    for s3, cv in self.rval(s2.fork(), cond):
+                        s_t, s_f = self.branch(s3, cv)
+                        if s_t is not None and not sharp_infeasible(s_t):
+                            raise AnalysisBroken('loop %s: a path that can start another iteration does not keep the closed forms of the induction variables' % lid)
+                        if s_f is not None:
+                            s_f.trace = s2.trace
+                            s_f.tags = dict(s_f.tags)
+                            s_f.tags['late-exit:' + lid] = True
+                            late2.append(s_f)
+                finally:
+                    self.obs, self.quiet = saved_obs2, saved_quiet2
+            if late2:
+                cont = keep2
+                brk = list(brk) + late2
         iter_traces = set()
         keep = getattr(self, 'keep_iter_states', False)
         snap_states = []
@@ -680,7 +774,7 @@ class LoopMachine(Machine):
             leaked = [oid for oid, o in s2.objs.items() if o.heap and o.live and oid not in live_before
                       and not s2.tags.get('retained:' + oid)]
             self.oblige(not leaked, 'loop-leak', s, 'object(s) %s allocated in loop %s are still live at the end of an iteration' % (leaked, lid))
-        for s2 in brk:
+        for s2, how in [(x, 'break') for x in brk] + [(x, 'return') for x, _c in ret]:
             # how the loop was left stays visible to the rules (the cursor local is gone by the time the function returns)
             s2.tags = dict(s2.tags)
             nulls = []
@@ -689,7 +783,7 @@ class LoopMachine(Machine):
                     for key_, (w_, t_) in ob_.cells.items():
                         if w_ == facts_word() and not key_[0] and s2.canon(t_) == ZERO:
                             nulls.append(oid_)
-            s2.tags['left-by-break:' + lid] = tuple(sorted(set(nulls))) or True
+            s2.tags['left-by-%s:%s' % (how, lid)] = tuple(sorted(set(nulls))) or True
         loop_eff = ('loop', lid, tuple(sorted(iter_traces, key=repr)))
         # flags a scan accumulates (1-byte cells of enclosing locals the body may write): their value on
         # leaving the loop is kept as a tag, so rules need not depend on the break-vs-condition idiom
@@ -825,8 +919,7 @@ class LoopMachine(Machine):
                 del o.cells[k]
             mem.add_region(o, ((), 0), o.size, 'loop:' + lid)
         if induct:
-            inv = getattr(self, 'loop_invs', {}).get(lid)
-            if inv is not None:
+            for inv in getattr(self, 'loop_invs', {}).get(lid) or ():
                 if len(inv.co) == 1 and kterm in inv.co and inv.co[kterm] > 0:
                     h.refine(kterm, Dom(0, (-inv.k) // inv.co[kterm]))
                 h.add_fact(inv)
